@@ -1,2 +1,707 @@
-From Coq Require Import QArith List.
+(* Proofs about Model/Voronoi1D.v: the code-shaped dcf_1d equals the neighbour characterisation `weight`, and the
+   characterisation has the invariances of Voronoi cell lengths. *)
+From Coq Require Import QArith Qminmax Qabs List Lia Lra Psatz Permutation Sorted Setoid Morphisms.
 From MrVerif Require Import Model.Voronoi1D.
+Import ListNotations.
+Open Scope Q_scope.
+
+(* ---------- booleans ---------- *)
+Lemma Qlt_bool_iff a b : Qlt_bool a b = true <-> a < b.
+Proof.
+  unfold Qlt_bool. rewrite Bool.negb_true_iff. split; intros H.
+  - apply Qnot_le_lt. intros C. apply Qle_bool_iff in C. congruence.
+  - destruct (Qle_bool b a) eqn:E; [|reflexivity]. apply Qle_bool_iff in E. exfalso. apply (Qlt_not_le _ _ H E).
+Qed.
+
+Lemma Qlt_bool_false a b : Qlt_bool a b = false <-> b <= a.
+Proof.
+  split; intros H.
+  - destruct (Qlt_le_dec a b) as [L|L]; [|exact L]. apply Qlt_bool_iff in L. congruence.
+  - destruct (Qlt_bool a b) eqn:E; [|reflexivity]. apply Qlt_bool_iff in E. exfalso. apply (Qlt_not_le _ _ E H).
+Qed.
+
+Lemma Qeq_bool_true a b : Qeq_bool a b = true <-> a == b.
+Proof. apply Qeq_bool_iff. Qed.
+
+Lemma Qeq_bool_compat a a' b b' : a == a' -> b == b' -> Qeq_bool a b = Qeq_bool a' b'.
+Proof.
+  intros Ha Hb. destruct (Qeq_bool a b) eqn:E, (Qeq_bool a' b') eqn:E'; try reflexivity.
+  - apply Qeq_bool_iff in E. assert (a' == b') as H by (rewrite <- Ha, <- Hb; exact E). apply Qeq_bool_iff in H. congruence.
+  - apply Qeq_bool_iff in E'. assert (a == b) as H by (rewrite Ha, Hb; exact E'). apply Qeq_bool_iff in H. congruence.
+Qed.
+
+(* ---------- membership up to == ---------- *)
+Definition InQ (a : Q) (l : list Q) : Prop := exists a', In a' l /\ a' == a.
+
+Lemma InQ_cons a x l : InQ a (x :: l) <-> x == a \/ InQ a l.
+Proof.
+  unfold InQ. split.
+  - intros [a' [[->|H] E]]; [left; exact E | right; exists a'; auto].
+  - intros [E|[a' [H E]]]; [exists x; simpl; auto | exists a'; simpl; auto].
+Qed.
+
+Lemma InQ_nil a : ~ InQ a [].
+Proof. intros [a' [[] _]]. Qed.
+
+Lemma In_InQ a l : In a l -> InQ a l.
+Proof. intros H. exists a. split; [exact H | reflexivity]. Qed.
+
+Lemma InQ_compat a b l : a == b -> InQ a l -> InQ b l.
+Proof. intros E [a' [H E']]. exists a'. split; [exact H | rewrite E'; exact E]. Qed.
+
+Definition same_set (l l' : list Q) : Prop := forall s, InQ s l <-> InQ s l'.
+
+(* ---------- option equality up to == ---------- *)
+Definition oeq (o1 o2 : option Q) : Prop :=
+  match o1, o2 with Some a, Some b => a == b | None, None => True | _, _ => False end.
+
+Lemma oeq_refl o : oeq o o.
+Proof. destruct o; simpl; auto. reflexivity. Qed.
+
+(* ---------- specification of lower / upper ---------- *)
+Definition is_lower (l : list Q) (x : Q) (o : option Q) : Prop :=
+  match o with
+  | Some a => InQ a l /\ a < x /\ (forall s, In s l -> s < x -> s <= a)
+  | None => forall s, In s l -> ~ s < x
+  end.
+Definition is_upper (l : list Q) (x : Q) (o : option Q) : Prop :=
+  match o with
+  | Some b => InQ b l /\ x < b /\ (forall s, In s l -> x < s -> b <= s)
+  | None => forall s, In s l -> ~ x < s
+  end.
+
+Lemma lower_spec l x : is_lower l x (lower l x).
+Proof.
+  induction l as [|s r IH]; simpl.
+  - intros s [].
+  - destruct (Qlt_bool s x) eqn:E.
+    + apply Qlt_bool_iff in E. destruct (lower r x) as [a|]; simpl in *.
+      * destruct IH as [Hin [Hlt Hmax]].
+        destruct (Q.max_spec s a) as [[L M]|[L M]].
+        -- split; [|split].
+           ++ apply InQ_cons. right. apply (InQ_compat a); [symmetry; exact M | exact Hin].
+           ++ rewrite M. exact Hlt.
+           ++ intros t [<-|Ht] Htx; rewrite M; [apply Qlt_le_weak; exact L | apply Hmax; assumption].
+        -- split; [|split].
+           ++ apply InQ_cons. left. symmetry. exact M.
+           ++ rewrite M. exact E.
+           ++ intros t [<-|Ht] Htx; rewrite M; [apply Qle_refl | apply Qle_trans with a; [apply Hmax; assumption | exact L]].
+      * split; [|split].
+        -- apply InQ_cons. left. reflexivity.
+        -- exact E.
+        -- intros t [<-|Ht] Htx; [apply Qle_refl | exfalso; exact (IH t Ht Htx)].
+    + apply Qlt_bool_false in E. destruct (lower r x) as [a|]; simpl in *.
+      * destruct IH as [Hin [Hlt Hmax]]. split; [|split].
+        -- apply InQ_cons. right. exact Hin.
+        -- exact Hlt.
+        -- intros t [<-|Ht] Htx; [exfalso; exact (Qlt_not_le _ _ Htx E) | apply Hmax; assumption].
+      * intros t [<-|Ht] Htx; [exact (Qlt_not_le _ _ Htx E) | exact (IH t Ht Htx)].
+Qed.
+
+Lemma upper_spec l x : is_upper l x (upper l x).
+Proof.
+  induction l as [|s r IH]; simpl.
+  - intros s [].
+  - destruct (Qlt_bool x s) eqn:E.
+    + apply Qlt_bool_iff in E. destruct (upper r x) as [a|]; simpl in *.
+      * destruct IH as [Hin [Hlt Hmin]].
+        destruct (Q.min_spec s a) as [[L M]|[L M]].
+        -- split; [|split].
+           ++ apply InQ_cons. left. symmetry. exact M.
+           ++ rewrite M. exact E.
+           ++ intros t [<-|Ht] Htx; rewrite M; [apply Qle_refl | apply Qle_trans with a; [apply Qlt_le_weak; exact L | apply Hmin; assumption]].
+        -- split; [|split].
+           ++ apply InQ_cons. right. apply (InQ_compat a); [symmetry; exact M | exact Hin].
+           ++ rewrite M. exact Hlt.
+           ++ intros t [<-|Ht] Htx; rewrite M; [exact L | apply Hmin; assumption].
+      * split; [|split].
+        -- apply InQ_cons. left. reflexivity.
+        -- exact E.
+        -- intros t [<-|Ht] Htx; [apply Qle_refl | exfalso; exact (IH t Ht Htx)].
+    + apply Qlt_bool_false in E. destruct (upper r x) as [a|]; simpl in *.
+      * destruct IH as [Hin [Hlt Hmin]]. split; [|split].
+        -- apply InQ_cons. right. exact Hin.
+        -- exact Hlt.
+        -- intros t [<-|Ht] Htx; [exfalso; exact (Qlt_not_le _ _ Htx E) | apply Hmin; assumption].
+      * intros t [<-|Ht] Htx; [exact (Qlt_not_le _ _ Htx E) | exact (IH t Ht Htx)].
+Qed.
+
+Lemma is_lower_unique l x o1 o2 : is_lower l x o1 -> is_lower l x o2 -> oeq o1 o2.
+Proof.
+  destruct o1 as [a|], o2 as [b|]; simpl; auto.
+  - intros [[a' [Ia Ea]] [La Ma]] [[b' [Ib Eb]] [Lb Mb]].
+    apply Qle_antisym.
+    + rewrite <- Ea. apply Mb; [exact Ia | rewrite Ea; exact La].
+    + rewrite <- Eb. apply Ma; [exact Ib | rewrite Eb; exact Lb].
+  - intros [[a' [Ia Ea]] [La _]] H. apply (H a' Ia). rewrite Ea. exact La.
+  - intros H [[b' [Ib Eb]] [Lb _]]. apply (H b' Ib). rewrite Eb. exact Lb.
+Qed.
+
+Lemma is_upper_unique l x o1 o2 : is_upper l x o1 -> is_upper l x o2 -> oeq o1 o2.
+Proof.
+  destruct o1 as [a|], o2 as [b|]; simpl; auto.
+  - intros [[a' [Ia Ea]] [La Ma]] [[b' [Ib Eb]] [Lb Mb]].
+    apply Qle_antisym.
+    + rewrite <- Eb. apply Ma; [exact Ib | rewrite Eb; exact Lb].
+    + rewrite <- Ea. apply Mb; [exact Ia | rewrite Ea; exact La].
+  - intros [[a' [Ia Ea]] [La _]] H. apply (H a' Ia). rewrite Ea. exact La.
+  - intros H [[b' [Ib Eb]] [Lb _]]. apply (H b' Ib). rewrite Eb. exact Lb.
+Qed.
+
+(* transfer of the specification along a map f that is monotone (g = f) or antitone, element-wise *)
+Lemma is_lower_transfer l l' x x' o o' :
+  (forall s', In s' l' -> exists s, In s l /\ (s' < x' -> s < x) /\
+      (match o, o' with Some a, Some a' => s < x -> s <= a -> s' <= a' | _, _ => True end)) ->
+  (match o, o' with
+   | Some a, Some a' => a < x -> a' < x' /\ (InQ a l -> InQ a' l')
+   | None, None => True
+   | _, _ => False end) ->
+  is_lower l x o -> is_lower l' x' o'.
+Proof.
+  intros Hel Ho H. destruct o as [a|], o' as [a'|]; simpl in *; try contradiction.
+  - destruct H as [Hin [Hlt Hmax]]. destruct (Ho Hlt) as [Hlt' Hin']. split; [|split]; auto.
+    intros s' Hs' Hs'x. destruct (Hel s' Hs') as [s [Hs [H1 H2]]]. apply H2; auto.
+  - intros s' Hs' Hs'x. destruct (Hel s' Hs') as [s [Hs [H1 _]]]. exact (H s Hs (H1 Hs'x)).
+Qed.
+
+Lemma is_upper_transfer l l' x x' o o' :
+  (forall s', In s' l' -> exists s, In s l /\ (x' < s' -> x < s) /\
+      (match o, o' with Some a, Some a' => x < s -> a <= s -> a' <= s' | _, _ => True end)) ->
+  (match o, o' with
+   | Some a, Some a' => x < a -> x' < a' /\ (InQ a l -> InQ a' l')
+   | None, None => True
+   | _, _ => False end) ->
+  is_upper l x o -> is_upper l' x' o'.
+Proof.
+  intros Hel Ho H. destruct o as [a|], o' as [a'|]; simpl in *; try contradiction.
+  - destruct H as [Hin [Hlt Hmin]]. destruct (Ho Hlt) as [Hlt' Hin']. split; [|split]; auto.
+    intros s' Hs' Hs'x. destruct (Hel s' Hs') as [s [Hs [H1 H2]]]. apply H2; auto.
+  - intros s' Hs' Hs'x. destruct (Hel s' Hs') as [s [Hs [H1 _]]]. exact (H s Hs (H1 Hs'x)).
+Qed.
+
+(* lower in terms of upper of the mirrored configuration (used for negative scale factors) *)
+Lemma is_lower_of_upper l l' x x' o o' :
+  (forall s', In s' l' -> exists s, In s l /\ (s' < x' -> x < s) /\
+      (match o, o' with Some a, Some a' => x < s -> a <= s -> s' <= a' | _, _ => True end)) ->
+  (match o, o' with
+   | Some a, Some a' => x < a -> a' < x' /\ (InQ a l -> InQ a' l')
+   | None, None => True
+   | _, _ => False end) ->
+  is_upper l x o -> is_lower l' x' o'.
+Proof.
+  intros Hel Ho H. destruct o as [a|], o' as [a'|]; simpl in *; try contradiction.
+  - destruct H as [Hin [Hlt Hmin]]. destruct (Ho Hlt) as [Hlt' Hin']. split; [|split]; auto.
+    intros s' Hs' Hs'x. destruct (Hel s' Hs') as [s [Hs [H1 H2]]]. apply H2; auto.
+  - intros s' Hs' Hs'x. destruct (Hel s' Hs') as [s [Hs [H1 _]]]. exact (H s Hs (H1 Hs'x)).
+Qed.
+
+Lemma is_upper_of_lower l l' x x' o o' :
+  (forall s', In s' l' -> exists s, In s l /\ (x' < s' -> s < x) /\
+      (match o, o' with Some a, Some a' => s < x -> s <= a -> a' <= s' | _, _ => True end)) ->
+  (match o, o' with
+   | Some a, Some a' => a < x -> x' < a' /\ (InQ a l -> InQ a' l')
+   | None, None => True
+   | _, _ => False end) ->
+  is_lower l x o -> is_upper l' x' o'.
+Proof.
+  intros Hel Ho H. destruct o as [a|], o' as [a'|]; simpl in *; try contradiction.
+  - destruct H as [Hin [Hlt Hmax]]. destruct (Ho Hlt) as [Hlt' Hin']. split; [|split]; auto.
+    intros s' Hs' Hs'x. destruct (Hel s' Hs') as [s [Hs [H1 H2]]]. apply H2; auto.
+  - intros s' Hs' Hs'x. destruct (Hel s' Hs') as [s [Hs [H1 _]]]. exact (H s Hs (H1 Hs'x)).
+Qed.
+
+(* ---------- cell length from the two neighbours ---------- *)
+Definition clen (lo up : option Q) (x : Q) : Q :=
+  match lo, up with
+  | Some a, Some b => (b - a) / 2
+  | None, Some b => b - x
+  | Some a, None => x - a
+  | None, None => 1
+  end.
+
+Lemma cell_len_clen l x : cell_len l x = clen (lower l x) (upper l x) x.
+Proof. reflexivity. Qed.
+
+Lemma clen_compat lo lo' up up' x x' : oeq lo lo' -> oeq up up' -> x == x' -> clen lo up x == clen lo' up' x'.
+Proof.
+  destruct lo, lo', up, up'; simpl; try contradiction; intros H1 H2 H3; try rewrite H1; try rewrite H2; try rewrite H3; reflexivity.
+Qed.
+
+(* any description of the neighbours determines the cell length *)
+Lemma cell_len_by_spec l x lo up : is_lower l x lo -> is_upper l x up -> cell_len l x == clen lo up x.
+Proof.
+  intros Hl Hu. rewrite cell_len_clen. apply clen_compat.
+  - apply (is_lower_unique l x); [apply lower_spec | exact Hl].
+  - apply (is_upper_unique l x); [apply upper_spec | exact Hu].
+  - reflexivity.
+Qed.
+
+(* ---------- counts ---------- *)
+Lemma count_compat x x' l : x == x' -> count x l = count x' l.
+Proof.
+  intros E. induction l as [|y r IH]; simpl; [reflexivity|].
+  rewrite (Qeq_bool_compat x x' y y E (Qeq_refl y)), IH. reflexivity.
+Qed.
+
+Lemma count_perm x l l' : Permutation l l' -> count x l = count x l'.
+Proof.
+  induction 1; simpl; try congruence.
+  - rewrite IHPermutation. reflexivity.
+  - destruct (Qeq_bool x y), (Qeq_bool x x0); reflexivity.
+Qed.
+
+Lemma count_map f x l : (forall y, Qeq_bool (f x) (f y) = Qeq_bool x y) -> count (f x) (map f l) = count x l.
+Proof. intros Hf. induction l as [|y r IH]; simpl; [reflexivity|]. rewrite Hf, IH. reflexivity. Qed.
+
+Lemma count_pos x l : InQ x l -> (0 < count x l)%nat.
+Proof.
+  induction l as [|y r IH]; intros H.
+  - destruct (InQ_nil _ H).
+  - simpl. apply InQ_cons in H. destruct (Qeq_bool x y) eqn:E; [lia|].
+    destruct H as [H|H]; [|exact (IH H)].
+    assert (x == y) as H' by (symmetry; exact H). apply Qeq_bool_iff in H'. congruence.
+Qed.
+
+Lemma qnat_pos n : (0 < n)%nat -> 0 < qnat n.
+Proof. intros H. unfold qnat. change 0 with (inject_Z 0). rewrite <- Zlt_Qlt. lia. Qed.
+
+(* ---------- invariances of the characterisation ---------- *)
+Lemma same_set_In l l' s' : same_set l l' -> In s' l' -> exists s, In s l /\ s == s'.
+Proof. intros H Hs. destruct (proj2 (H s') (In_InQ _ _ Hs)) as [s [Hin E]]. exists s. auto. Qed.
+
+Lemma cell_len_same_set l l' x x' : same_set l l' -> x == x' -> cell_len l x == cell_len l' x'.
+Proof.
+  intros HS E. symmetry.
+  rewrite (cell_len_by_spec l' x' (lower l x) (upper l x)).
+  - rewrite cell_len_clen. apply clen_compat; [apply oeq_refl | apply oeq_refl | symmetry; exact E].
+  - apply (is_lower_transfer l l' x x' (lower l x) (lower l x)); [| |apply lower_spec].
+    + intros s' Hs'. destruct (same_set_In l l' s' HS Hs') as [s [Hs Es]]. exists s. split; [exact Hs|]. split.
+      * rewrite <- Es, <- E. auto.
+      * destruct (lower l x); auto. intros _ H. rewrite <- Es. exact H.
+    + destruct (lower l x); auto. intros H. split; [rewrite <- E; exact H | apply HS].
+  - apply (is_upper_transfer l l' x x' (upper l x) (upper l x)); [| |apply upper_spec].
+    + intros s' Hs'. destruct (same_set_In l l' s' HS Hs') as [s [Hs Es]]. exists s. split; [exact Hs|]. split.
+      * rewrite <- Es, <- E. auto.
+      * destruct (upper l x); auto. intros _ H. rewrite <- Es. exact H.
+    + destruct (upper l x); auto. intros H. split; [rewrite <- E; exact H | apply HS].
+Qed.
+
+Lemma perm_same_set l l' : Permutation l l' -> same_set l l'.
+Proof.
+  intros P s. split; intros [a [H E]]; exists a; split; auto.
+  - apply (Permutation_in _ P H).
+  - apply (Permutation_in _ (Permutation_sym P) H).
+Qed.
+
+Lemma qdiv_compat a a' b b' : a == a' -> b == b' -> a / b == a' / b'.
+Proof. intros H1 H2. rewrite H1, H2. reflexivity. Qed.
+
+Lemma weight_perm l l' x : Permutation l l' -> weight l x == weight l' x.
+Proof.
+  intros P. unfold weight. apply qdiv_compat.
+  - apply cell_len_same_set; [apply perm_same_set; exact P | reflexivity].
+  - rewrite (count_perm x l l' P). reflexivity.
+Qed.
+
+Lemma weight_compat l x y : x == y -> weight l x == weight l y.
+Proof.
+  intros E. unfold weight. apply qdiv_compat.
+  - apply cell_len_same_set; [intros s; reflexivity | exact E].
+  - rewrite (count_compat x y l E). reflexivity.
+Qed.
+
+Lemma InQ_map f a l : (forall u v, u == v -> f u == f v) -> InQ a l -> InQ (f a) (map f l).
+Proof. intros Hf [a' [H E]]. exists (f a'). split; [apply in_map; exact H | apply Hf; exact E]. Qed.
+
+Lemma omap_cases (f : Q -> Q) (o : option Q) :
+  (o = None /\ option_map f o = None) \/ (exists a, o = Some a /\ option_map f o = Some (f a)).
+Proof. destruct o; [right; eauto | left; auto]. Qed.
+
+(* translation *)
+Lemma cell_len_translate t l x : cell_len (map (Qplus t) l) (t + x) == cell_len l x.
+Proof.
+  rewrite (cell_len_by_spec (map (Qplus t) l) (t + x) (option_map (Qplus t) (lower l x)) (option_map (Qplus t) (upper l x))).
+  - rewrite cell_len_clen. destruct (lower l x), (upper l x); simpl; field.
+  - apply (is_lower_transfer l _ x _ (lower l x)); [| |apply lower_spec].
+    + intros s' Hs'. apply in_map_iff in Hs'. destruct Hs' as [s [<- Hs]]. exists s. split; [exact Hs|]. split.
+      * intros H. lra.
+      * destruct (lower l x); simpl; auto. intros _ H. lra.
+    + destruct (lower l x); simpl; auto. intros H. split; [lra|].
+      apply InQ_map. intros u v E. rewrite E. reflexivity.
+  - apply (is_upper_transfer l _ x _ (upper l x)); [| |apply upper_spec].
+    + intros s' Hs'. apply in_map_iff in Hs'. destruct Hs' as [s [<- Hs]]. exists s. split; [exact Hs|]. split.
+      * intros H. lra.
+      * destruct (upper l x); simpl; auto. intros _ H. lra.
+    + destruct (upper l x); simpl; auto. intros H. split; [lra|].
+      apply InQ_map. intros u v E. rewrite E. reflexivity.
+Qed.
+
+Lemma Qeq_bool_plus t x y : Qeq_bool (t + x) (t + y) = Qeq_bool x y.
+Proof.
+  destruct (Qeq_bool x y) eqn:E.
+  - apply Qeq_bool_iff in E. apply Qeq_bool_iff. rewrite E. reflexivity.
+  - destruct (Qeq_bool (t + x) (t + y)) eqn:E'; [|reflexivity]. apply Qeq_bool_iff in E'.
+    assert (x == y) as H by lra. apply Qeq_bool_iff in H. congruence.
+Qed.
+
+Lemma weight_translate t l x : weight (map (Qplus t) l) (t + x) == weight l x.
+Proof.
+  unfold weight. apply qdiv_compat; [apply cell_len_translate|].
+  rewrite (count_map (Qplus t) x l); [reflexivity | intros y; apply Qeq_bool_plus].
+Qed.
+
+(* scaling *)
+Lemma Qeq_bool_mult a x y : ~ a == 0 -> Qeq_bool (a * x) (a * y) = Qeq_bool x y.
+Proof.
+  intros Ha. destruct (Qeq_bool x y) eqn:E.
+  - apply Qeq_bool_iff in E. apply Qeq_bool_iff. rewrite E. reflexivity.
+  - destruct (Qeq_bool (a * x) (a * y)) eqn:E'; [|reflexivity]. apply Qeq_bool_iff in E'.
+    assert (x == y) as H by (apply (Qmult_inj_l x y a Ha); exact E'). apply Qeq_bool_iff in H. congruence.
+Qed.
+
+Lemma mult_lt_pos a u v : 0 < a -> (a * u < a * v <-> u < v).
+Proof. intros Ha. split; intros H; nra. Qed.
+Lemma mult_le_pos a u v : 0 < a -> (a * u <= a * v <-> u <= v).
+Proof. intros Ha. split; intros H; nra. Qed.
+Lemma mult_lt_neg a u v : a < 0 -> (a * u < a * v <-> v < u).
+Proof. intros Ha. split; intros H; nra. Qed.
+Lemma mult_le_neg a u v : a < 0 -> (a * u <= a * v <-> v <= u).
+Proof. intros Ha. split; intros H; nra. Qed.
+
+Lemma cell_len_scale_pos a l x : 0 < a -> ~ (forall s, In s l -> s == x) ->
+  cell_len (map (Qmult a) l) (a * x) == a * cell_len l x.
+Proof.
+  intros Ha Hne.
+  rewrite (cell_len_by_spec (map (Qmult a) l) (a * x) (option_map (Qmult a) (lower l x)) (option_map (Qmult a) (upper l x))).
+  - rewrite cell_len_clen. pose proof (lower_spec l x) as HL. pose proof (upper_spec l x) as HU.
+    destruct (lower l x), (upper l x); simpl in *; try field.
+    exfalso. apply Hne. intros s Hs. specialize (HL s Hs). specialize (HU s Hs).
+    apply Qle_antisym; apply Qnot_lt_le; assumption.
+  - apply (is_lower_transfer l _ x _ (lower l x)); [| |apply lower_spec].
+    + intros s' Hs'. apply in_map_iff in Hs'. destruct Hs' as [s [<- Hs]]. exists s. split; [exact Hs|]. split.
+      * intros H. apply (mult_lt_pos a); assumption.
+      * destruct (lower l x); simpl; auto. intros _ H. apply (mult_le_pos a); assumption.
+    + destruct (lower l x); simpl; auto. intros H. split; [apply (mult_lt_pos a); assumption|].
+      apply InQ_map. intros u v E. rewrite E. reflexivity.
+  - apply (is_upper_transfer l _ x _ (upper l x)); [| |apply upper_spec].
+    + intros s' Hs'. apply in_map_iff in Hs'. destruct Hs' as [s [<- Hs]]. exists s. split; [exact Hs|]. split.
+      * intros H. apply (mult_lt_pos a); assumption.
+      * destruct (upper l x); simpl; auto. intros _ H. apply (mult_le_pos a); assumption.
+    + destruct (upper l x); simpl; auto. intros H. split; [apply (mult_lt_pos a); assumption|].
+      apply InQ_map. intros u v E. rewrite E. reflexivity.
+Qed.
+
+Lemma cell_len_scale_neg a l x : a < 0 -> ~ (forall s, In s l -> s == x) ->
+  cell_len (map (Qmult a) l) (a * x) == - a * cell_len l x.
+Proof.
+  intros Ha Hne.
+  rewrite (cell_len_by_spec (map (Qmult a) l) (a * x) (option_map (Qmult a) (upper l x)) (option_map (Qmult a) (lower l x))).
+  - rewrite cell_len_clen. pose proof (lower_spec l x) as HL. pose proof (upper_spec l x) as HU.
+    destruct (lower l x), (upper l x); simpl in *; try field.
+    exfalso. apply Hne. intros s Hs. specialize (HL s Hs). specialize (HU s Hs).
+    apply Qle_antisym; apply Qnot_lt_le; assumption.
+  - apply (is_lower_of_upper l _ x _ (upper l x)); [| |apply upper_spec].
+    + intros s' Hs'. apply in_map_iff in Hs'. destruct Hs' as [s [<- Hs]]. exists s. split; [exact Hs|]. split.
+      * intros H. apply (mult_lt_neg a); assumption.
+      * destruct (upper l x); simpl; auto. intros _ H. apply (mult_le_neg a); assumption.
+    + destruct (upper l x); simpl; auto. intros H. split; [apply (mult_lt_neg a); assumption|].
+      apply InQ_map. intros u v E. rewrite E. reflexivity.
+  - apply (is_upper_of_lower l _ x _ (lower l x)); [| |apply lower_spec].
+    + intros s' Hs'. apply in_map_iff in Hs'. destruct Hs' as [s [<- Hs]]. exists s. split; [exact Hs|]. split.
+      * intros H. apply (mult_lt_neg a); assumption.
+      * destruct (lower l x); simpl; auto. intros _ H. apply (mult_le_neg a); assumption.
+    + destruct (lower l x); simpl; auto. intros H. split; [apply (mult_lt_neg a); assumption|].
+      apply InQ_map. intros u v E. rewrite E. reflexivity.
+Qed.
+
+Lemma weight_scale a l x : ~ a == 0 -> ~ (forall s, In s l -> s == x) ->
+  weight (map (Qmult a) l) (a * x) == Qabs a * weight l x.
+Proof.
+  intros Ha Hne. unfold weight.
+  rewrite (count_map (Qmult a) x l) by (intros y; apply Qeq_bool_mult; exact Ha).
+  destruct (Qlt_le_dec 0 a) as [P|N].
+  - rewrite (cell_len_scale_pos a l x P Hne). rewrite (Qabs_pos a) by (apply Qlt_le_weak; exact P).
+    unfold Qdiv. ring.
+  - assert (a < 0) as N' by (apply Qle_lteq in N; destruct N as [N|N]; [exact N | exfalso; apply Ha; exact N]).
+    rewrite (cell_len_scale_neg a l x N' Hne). rewrite (Qabs_neg a N). unfold Qdiv. ring.
+Qed.
+
+(* positivity *)
+Lemma cell_len_pos l x : (exists y, In y l /\ ~ y == x) -> 0 < cell_len l x.
+Proof.
+  intros [y [Hy Ne]]. rewrite cell_len_clen.
+  pose proof (lower_spec l x) as HL. pose proof (upper_spec l x) as HU.
+  destruct (lower l x) as [a|], (upper l x) as [b|]; simpl in *.
+  - destruct HL as [_ [HL _]]. destruct HU as [_ [HU _]]. apply Qlt_shift_div_l; lra.
+  - destruct HL as [_ [HL _]]. lra.
+  - destruct HU as [_ [HU _]]. lra.
+  - exfalso. specialize (HL y Hy). specialize (HU y Hy). apply Ne.
+    apply Qle_antisym; apply Qnot_lt_le; assumption.
+Qed.
+
+Lemma weight_pos l x : In x l -> (exists y, In y l /\ ~ y == x) -> 0 < weight l x.
+Proof.
+  intros Hx Hy. unfold weight. apply Qlt_shift_div_l.
+  - apply qnat_pos, count_pos, In_InQ, Hx.
+  - rewrite Qmult_0_l. apply cell_len_pos, Hy.
+Qed.
+
+(* the coincident samples together carry exactly the cell *)
+Lemma weight_split l x : In x l -> qnat (count x l) * weight l x == cell_len l x.
+Proof.
+  intros Hx. unfold weight. field. intros C.
+  pose proof (qnat_pos _ (count_pos x l (In_InQ _ _ Hx))) as P. rewrite C in P. exact (Qlt_irrefl _ P).
+Qed.
+
+(* interior: nearest neighbours a < x < b give the Voronoi cell [(a+x)/2, (x+b)/2] *)
+Lemma cell_len_interior l x a b :
+  InQ a l -> InQ b l -> a < x -> x < b ->
+  (forall s, In s l -> s < x -> s <= a) -> (forall s, In s l -> x < s -> b <= s) ->
+  cell_len l x == (b - a) / 2.
+Proof.
+  intros Ia Ib La Lb Ma Mb. apply (cell_len_by_spec l x (Some a) (Some b)); simpl; auto.
+Qed.
+
+Lemma cell1_interior l p a b y :
+  InQ a l -> InQ b l -> a < p -> p < b ->
+  (forall s, In s l -> s < p -> s <= a) -> (forall s, In s l -> p < s -> b <= s) ->
+  (cell1 l p y <-> a + p <= 2 * y <= p + b).
+Proof.
+  intros [a' [Ia Ea]] [b' [Ib Eb]] La Lb Ma Mb. unfold cell1. split.
+  - intros H. pose proof (H a' Ia) as Ha. pose proof (H b' Ib) as Hb. rewrite Ea in Ha. rewrite Eb in Hb.
+    split.
+    + assert (0 <= (p - a) * (2 * y - p - a)) as K by lra.
+      destruct (Qlt_le_dec (2 * y) (a + p)) as [C|C]; [|exact C]. exfalso. nra.
+    + assert (0 <= (b - p) * (b + p - 2 * y)) as K by lra.
+      destruct (Qlt_le_dec (p + b) (2 * y)) as [C|C]; [|exact C]. exfalso. nra.
+  - intros [H1 H2] q Hq.
+    destruct (Q_dec q p) as [[L|G]|E].
+    + pose proof (Ma q Hq L). assert (0 <= (p - q) * (2 * y - p - q)) as K by nra. lra.
+    + pose proof (Mb q Hq G). assert (0 <= (q - p) * (q + p - 2 * y)) as K by nra. lra.
+    + rewrite E. apply Qle_refl.
+Qed.
+
+(* ---------- torch.unique: strictly increasing, same set ---------- *)
+Lemma uinsert_InQ s x l : InQ s (uinsert x l) <-> x == s \/ InQ s l.
+Proof.
+  induction l as [|y r IH]; simpl.
+  - rewrite InQ_cons. reflexivity.
+  - destruct (x ?= y) eqn:C.
+    + apply Qeq_alt in C. rewrite InQ_cons. split; [tauto|]. intros [H|H]; [left; rewrite <- C; exact H | exact H].
+    + rewrite InQ_cons. reflexivity.
+    + rewrite InQ_cons, IH, InQ_cons. tauto.
+Qed.
+
+Lemma unique_same_set l : same_set (unique l) l.
+Proof.
+  induction l as [|x r IH]; intros s; simpl.
+  - reflexivity.
+  - rewrite uinsert_InQ, InQ_cons, (IH s). reflexivity.
+Qed.
+
+Lemma uinsert_Forall_lt a x l : a < x -> Forall (Qlt a) l -> Forall (Qlt a) (uinsert x l).
+Proof.
+  intros Hax. induction l as [|y r IH]; simpl; intros H.
+  - constructor; auto.
+  - inversion H; subst. destruct (x ?= y); auto.
+Qed.
+
+Lemma uinsert_sorted x l : StronglySorted Qlt l -> StronglySorted Qlt (uinsert x l).
+Proof.
+  induction l as [|y r IH]; simpl; intros H.
+  - constructor; constructor.
+  - inversion H; subst. destruct (x ?= y) eqn:C.
+    + exact H.
+    + apply Qlt_alt in C. constructor; [exact H|]. constructor; [exact C|].
+      eapply Forall_impl; [|exact H3]. intros z Hz. apply Qlt_trans with y; assumption.
+    + apply Qgt_alt in C. constructor; [apply IH; exact H2|]. apply uinsert_Forall_lt; assumption.
+Qed.
+
+Lemma unique_sorted l : StronglySorted Qlt (unique l).
+Proof. induction l; simpl; [constructor | apply uinsert_sorted; assumption]. Qed.
+
+Lemma sorted_nth_lt u : StronglySorted Qlt u -> forall i j, (i < j < length u)%nat -> nth i u 0 < nth j u 0.
+Proof.
+  induction 1 as [|a r HS IH HF]; intros i j Hij; simpl in *; [lia|].
+  destruct j as [|j]; [lia|]. destruct i as [|i].
+  - rewrite Forall_forall in HF. apply HF. apply nth_In. lia.
+  - apply IH. lia.
+Qed.
+
+Lemma sorted_lower u i : StronglySorted Qlt u -> (i < length u)%nat ->
+  is_lower u (nth i u 0) (match i with O => None | S k => Some (nth k u 0) end).
+Proof.
+  intros HS Hi. destruct i as [|k]; simpl.
+  - intros s Hs Hlt. destruct (In_nth u s 0 Hs) as [j [Hj <-]].
+    destruct j as [|j]; [exact (Qlt_irrefl _ Hlt)|].
+    pose proof (sorted_nth_lt u HS 0 (S j) ltac:(lia)) as H. exact (Qlt_irrefl _ (Qlt_trans _ _ _ H Hlt)).
+  - split; [|split].
+    + apply In_InQ, nth_In. lia.
+    + apply (sorted_nth_lt u HS). lia.
+    + intros s Hs Hlt. destruct (In_nth u s 0 Hs) as [j [Hj <-]].
+      destruct (Nat.lt_trichotomy j k) as [L|[->|G]].
+      * apply Qlt_le_weak, (sorted_nth_lt u HS). lia.
+      * apply Qle_refl.
+      * exfalso. destruct (Nat.eq_dec j (S k)) as [->|Ne]; [exact (Qlt_irrefl _ Hlt)|].
+        pose proof (sorted_nth_lt u HS (S k) j ltac:(lia)) as H. exact (Qlt_irrefl _ (Qlt_trans _ _ _ H Hlt)).
+Qed.
+
+Lemma sorted_upper u i : StronglySorted Qlt u -> (i < length u)%nat ->
+  is_upper u (nth i u 0) (if Nat.eqb (S i) (length u) then None else Some (nth (S i) u 0)).
+Proof.
+  intros HS Hi. destruct (Nat.eqb (S i) (length u)) eqn:E.
+  - apply Nat.eqb_eq in E. intros s Hs Hlt. destruct (In_nth u s 0 Hs) as [j [Hj <-]].
+    destruct (Nat.eq_dec j i) as [->|Ne]; [exact (Qlt_irrefl _ Hlt)|].
+    pose proof (sorted_nth_lt u HS j i ltac:(lia)) as H. exact (Qlt_irrefl _ (Qlt_trans _ _ _ H Hlt)).
+  - apply Nat.eqb_neq in E. split; [|split].
+    + apply In_InQ, nth_In. lia.
+    + apply (sorted_nth_lt u HS). lia.
+    + intros s Hs Hlt. destruct (In_nth u s 0 Hs) as [j [Hj <-]].
+      destruct (Nat.lt_trichotomy j (S i)) as [L|[->|G]].
+      * exfalso. destruct (Nat.eq_dec j i) as [->|Ne]; [exact (Qlt_irrefl _ Hlt)|].
+        pose proof (sorted_nth_lt u HS j i ltac:(lia)) as H. exact (Qlt_irrefl _ (Qlt_trans _ _ _ H Hlt)).
+      * apply Qle_refl.
+      * apply Qlt_le_weak, (sorted_nth_lt u HS). lia.
+Qed.
+
+(* ---------- the code-shaped central differences ---------- *)
+Lemma conv3_length u : length (conv3 u) = (length u - 2)%nat.
+Proof.
+  induction u as [|a r IH]; [reflexivity|]. destruct r as [|b [|c t]]; try reflexivity.
+  change (conv3 (a :: b :: c :: t)) with (((-1 # 2) * a + (1 # 2) * c) :: conv3 (b :: c :: t)).
+  simpl length in *. rewrite IH. lia.
+Qed.
+
+Lemma conv3_nth u : forall i, (i + 2 < length u)%nat -> nth i (conv3 u) 0 == (nth (i + 2) u 0 - nth i u 0) / 2.
+Proof.
+  induction u as [|a r IH]; intros i Hi; [simpl in Hi; lia|].
+  destruct r as [|b [|c t]]; try (simpl in Hi; lia).
+  change (conv3 (a :: b :: c :: t)) with (((-1 # 2) * a + (1 # 2) * c) :: conv3 (b :: c :: t)).
+  destruct i as [|i].
+  - simpl. field.
+  - change (nth (S i) (((-1 # 2) * a + (1 # 2) * c) :: conv3 (b :: c :: t)) 0) with (nth i (conv3 (b :: c :: t)) 0).
+    rewrite IH by (simpl in *; lia). reflexivity.
+Qed.
+
+Lemma central_diff_length u : length (central_diff u) = length u.
+Proof.
+  destruct u as [|a [|b [|c t]]]; try reflexivity.
+  set (u := a :: b :: c :: t).
+  transitivity (S (length (conv3 u ++ [nth (length u - 1) u 0 - nth (length u - 2) u 0]))); [reflexivity|].
+  rewrite app_length, conv3_length. subst u. simpl. lia.
+Qed.
+
+Lemma central_diff_nth u i : (i < length u)%nat ->
+  nth i (central_diff u) 0 ==
+  clen (match i with O => None | S k => Some (nth k u 0) end)
+       (if Nat.eqb (S i) (length u) then None else Some (nth (S i) u 0)) (nth i u 0).
+Proof.
+  intros Hi. destruct u as [|a [|b [|c t]]].
+  - simpl in Hi. lia.
+  - destruct i as [|i]; [reflexivity | simpl in Hi; lia].
+  - destruct i as [|[|i]]; [reflexivity | reflexivity | simpl in Hi; lia].
+  - set (u := a :: b :: c :: t) in *.
+    assert (central_diff u = (b - a) :: conv3 u ++ [nth (length u - 1) u 0 - nth (length u - 2) u 0]) as -> by reflexivity.
+    destruct i as [|j].
+    + assert (Nat.eqb 1 (length u) = false) as -> by (apply Nat.eqb_neq; simpl; lia). reflexivity.
+    + change (nth (S j) ((b - a) :: conv3 u ++ [nth (length u - 1) u 0 - nth (length u - 2) u 0]) 0)
+        with (nth j (conv3 u ++ [nth (length u - 1) u 0 - nth (length u - 2) u 0]) 0).
+      destruct (Nat.eqb (S (S j)) (length u)) eqn:E.
+      * apply Nat.eqb_eq in E. rewrite app_nth2 by (rewrite conv3_length; lia).
+        rewrite conv3_length. replace (j - (length u - 2))%nat with O by lia.
+        replace (length u - 1)%nat with (S j) by lia. replace (length u - 2)%nat with j by lia. reflexivity.
+      * apply Nat.eqb_neq in E. rewrite app_nth1 by (rewrite conv3_length; lia).
+        rewrite conv3_nth by lia. replace (j + 2)%nat with (S (S j)) by lia. reflexivity.
+Qed.
+
+(* ---------- index ---------- *)
+Lemma index_spec x u : InQ x u -> (index x u < length u)%nat /\ nth (index x u) u 0 == x.
+Proof.
+  induction u as [|y r IH]; intros H; [destruct (InQ_nil _ H)|].
+  simpl. destruct (Qeq_bool x y) eqn:E.
+  - apply Qeq_bool_iff in E. split; [lia | symmetry; exact E].
+  - apply InQ_cons in H. destruct H as [H|H].
+    + assert (x == y) as H' by (symmetry; exact H). apply Qeq_bool_iff in H'. congruence.
+    + destruct (IH H). split; [lia | assumption].
+Qed.
+
+Lemma map2_nth {A B C} (f : A -> B -> C) l m da db dc i :
+  (i < length l)%nat -> (i < length m)%nat -> nth i (map2 f l m) dc = f (nth i l da) (nth i m db).
+Proof.
+  revert m i. induction l as [|a l IH]; intros [|b m] i Hl Hm; simpl in *; try lia.
+  destruct i; [reflexivity | apply IH; lia].
+Qed.
+
+(* ---------- main correspondence lemma: the code computes `weight` ---------- *)
+Lemma dcf_1d_point l x : In x l ->
+  nth (index x (unique l)) (map2 Qdiv (central_diff (unique l)) (map (fun s => qnat (count s l)) (unique l))) 0 == weight l x.
+Proof.
+  intros Hx. set (u := unique l).
+  assert (InQ x u) as Hu by (apply (unique_same_set l x), In_InQ, Hx).
+  destruct (index_spec x u Hu) as [Hi Hn]. set (i := index x u) in *.
+  rewrite (map2_nth Qdiv _ _ 0 (qnat (count 0 l)) 0) by (rewrite ?central_diff_length, ?map_length; exact Hi).
+  rewrite (map_nth (fun s => qnat (count s l)) u 0 i).
+  unfold weight. apply qdiv_compat.
+  - rewrite central_diff_nth by exact Hi.
+    rewrite <- (cell_len_by_spec u (nth i u 0)) by (first [apply sorted_lower | apply sorted_upper]; [apply unique_sorted | exact Hi]).
+    apply cell_len_same_set; [apply unique_same_set | exact Hn].
+  - rewrite (count_compat _ _ l Hn). reflexivity.
+Qed.
+
+Lemma Forall2_map_same {A} (R : Q -> Q -> Prop) (f g : A -> Q) l : (forall x, In x l -> R (f x) (g x)) -> Forall2 R (map f l) (map g l).
+Proof. induction l; simpl; intros H; constructor; auto. Qed.
+
+Theorem dcf_1d_eq_weight l : Forall2 Qeq (dcf_1d l) (map (weight l) l).
+Proof. unfold dcf_1d. apply Forall2_map_same. intros x Hx. apply dcf_1d_point, Hx. Qed.
+
+(* permutation equivariance of the code: the weights of the shuffled samples are the weights of the samples *)
+Theorem dcf_1d_perm l l' : Permutation l l' -> Forall2 Qeq (dcf_1d l') (map (weight l) l').
+Proof.
+  intros P. pose proof (dcf_1d_eq_weight l') as H.
+  assert (Forall2 Qeq (map (weight l') l') (map (weight l) l')) as H2.
+  { apply Forall2_map_same. intros x _. symmetry. apply weight_perm, P. }
+  revert H H2. generalize (dcf_1d l') (map (weight l') l') (map (weight l) l').
+  intros a b c H. revert c. induction H; intros c H2; inversion H2; subst; constructor.
+  - rewrite H. assumption.
+  - apply IHForall2. assumption.
+Qed.
+
+Lemma Forall2_Qeq_trans a b c : Forall2 Qeq a b -> Forall2 Qeq b c -> Forall2 Qeq a c.
+Proof.
+  intros H. revert c. induction H; intros c H2; inversion H2; subst; constructor.
+  - rewrite H. assumption.
+  - apply IHForall2. assumption.
+Qed.
+
+Theorem dcf_1d_translate t l : Forall2 Qeq (dcf_1d (map (Qplus t) l)) (dcf_1d l).
+Proof.
+  eapply Forall2_Qeq_trans; [apply dcf_1d_eq_weight|].
+  assert (Forall2 Qeq (map (weight l) l) (dcf_1d l)) as H.
+  { pose proof (dcf_1d_eq_weight l) as H. induction H; constructor; [symmetry; assumption | assumption]. }
+  eapply Forall2_Qeq_trans; [|exact H].
+  rewrite map_map. apply Forall2_map_same. intros x _. apply weight_translate.
+Qed.
+
+Theorem dcf_1d_scale a l : ~ a == 0 -> (exists x y, In x l /\ In y l /\ ~ x == y) ->
+  Forall2 Qeq (dcf_1d (map (Qmult a) l)) (map (Qmult (Qabs a)) (dcf_1d l)).
+Proof.
+  intros Ha [x0 [y0 [Hx0 [Hy0 Ne]]]].
+  eapply Forall2_Qeq_trans; [apply dcf_1d_eq_weight|].
+  assert (Forall2 Qeq (map (fun x => Qabs a * weight l x) l) (map (Qmult (Qabs a)) (dcf_1d l))) as H.
+  { pose proof (dcf_1d_eq_weight l) as H. rewrite <- (map_map (weight l) (Qmult (Qabs a))).
+    induction H; simpl; constructor; [rewrite H; reflexivity | assumption]. }
+  eapply Forall2_Qeq_trans; [|exact H].
+  rewrite map_map. apply Forall2_map_same. intros x _. apply weight_scale; [exact Ha|].
+  intros C. apply Ne. rewrite (C x0 Hx0), (C y0 Hy0). reflexivity.
+Qed.
+
+Theorem dcf_1d_positive l : (exists x y, In x l /\ In y l /\ ~ x == y) -> Forall (Qlt 0) (dcf_1d l).
+Proof.
+  intros [x0 [y0 [Hx0 [Hy0 Ne]]]].
+  assert (Forall (Qlt 0) (map (weight l) l)) as H.
+  { apply Forall_forall. intros w Hw. apply in_map_iff in Hw. destruct Hw as [x [<- Hx]].
+    apply weight_pos; [exact Hx|].
+    destruct (Qeq_dec x0 x) as [E|E]; [exists y0; split; [exact Hy0|]; intros C; apply Ne; rewrite E, C; reflexivity | exists x0; auto]. }
+  pose proof (dcf_1d_eq_weight l) as H2. revert H. generalize (map (weight l) l) H2. generalize (dcf_1d l).
+  intros a b H3. induction H3; intros HF; constructor; inversion HF; subst; [rewrite H; assumption | auto].
+Qed.
